@@ -11,12 +11,14 @@ reflect variants) are tied to it on every run by PlayerDrive's `persist` ops: th
 * `restore_player`, `restore_lookup`, `persistView_idem`, `restore_inv`: the restored state has exactly the player fields, exactly
   the (persisted image of the) router of every round ≥ player.Round and nothing else; restoring twice changes nothing; the C03
   invariant survives a restart.
-* `RestoreBisimStatement`: the full behavioural claim (every continuation yields the same actions from the restored state as
-  from the live one, modulo the deliberately unpersisted late-credential tracking).  Proved part: `restore_bisim_partial`
-  (see below); the rest is evidenced by sampling: on every run the REAL restored router and the REAL live router receive
-  the same continuation and are diffed, and PlayerM restored from `persistView` is compared with the real restored router.
+* `restore_bisim` (full, = `RestoreBisimStatement`): from every state satisfying the C03 node invariant, every continuation that
+  meets the verifiers' guarantees and does not consult the deliberately unpersisted old rounds yields — event by event — the same
+  actions from the restored state as from the live one up to late-credential noise (`ignore` vs propose-step `relayVote`), the same
+  panics, and states that again persist to the same image.  Proof: a logical relation "equal persisted image" through all ≈50
+  operations of PlayerM (Lemmas/PlayerBisim*.lean).
 -/
 import AlgoVerif.Lemmas.PlayerDisk
+import AlgoVerif.Lemmas.PlayerBisimPlayer
 import AlgoVerif.Props.C03
 namespace Props.C07
 open AlgoVerif.Msgpack AlgoVerif.Model AlgoVerif.Model.Player AlgoVerif.Model.PlayerDisk AlgoVerif.Lemmas.Player
@@ -85,58 +87,41 @@ theorem restore_inv (P : Params) (good : Nat → Nat → Nat → VoteTracker.Vot
 
 /-! ### behaviour after a restart -/
 
-/-- late-credential noise: the only actions whose choice may depend on unpersisted state — a proposal-vote is answered
-`ignore`, or relayed (`relayVote` with step = propose) -/
-def lateNoise : Action → Bool
-  | .ignore => true
-  | .relayVote v => v.step == 0
-  | _ => false
-
-/-- two action lists agree up to late-credential noise -/
-def ActsSim : List Action → List Action → Prop
-  | [], [] => True
-  | a :: as, b :: bs => (a = b ∨ (lateNoise a = true ∧ lateNoise b = true)) ∧ ActsSim as bs
-  | _, _ => False
-
-/-- continuation events under which the unpersisted old rounds are never consulted: no proposal-vote of a round below the
-player's current round (such votes only feed credential-arrival statistics), round interruptions move forward -/
-def ContOK (σ : State) : Player.Event → Prop
-  | .pvote _ _ v _ _ => v.round ≥ σ.pl.round
-  | .roundInterruption r => r > σ.pl.round
-  | _ => True
-
-def ContRunOK (P : Params) : State → List Player.Event → Prop
-  | _, [] => True
-  | σ, e :: rest => ContOK σ e ∧ ∀ σ' as, Player.handle P σ e = .ok (σ', as) → ContRunOK P σ' rest
-
-/-- event by event -/
-def RunActsSim : List (List Action) → List (List Action) → Prop
-  | [], [] => True
-  | a :: as, b :: bs => ActsSim a b ∧ RunActsSim as bs
-  | _, _ => False
-
-/-- outcome of a live run vs the run from the restored state -/
-def RunSim : Except Panic (State × List (List Action)) → Except Panic (State × List (List Action)) → Prop
-  | .ok (σ₁, ass₁), .ok (σ₂, ass₂) => persistView σ₁ = persistView σ₂ ∧ RunActsSim ass₁ ass₂
-  | .error _, .error _ => True
-  | _, _ => False
-
-/-- **The full statement** (DESIGN §6 C07 `restore_bisim`): from any state whose freshest bundles belong to their rounds,
-every continuation that does not consult deliberately unpersisted old rounds yields — event by event — the same actions from
-the restored state as from the live state, up to late-credential noise, the same panics, and states that again persist to
-the same image. -/
+/-- **The full statement** (DESIGN §6 C07 `restore_bisim`).  For every state `σ` satisfying the node invariant of C03
+(reachable states do: `Props.C03.init_inv`, `handle_inv`, `persistView_inv`) and every continuation `es`
+* whose verified votes / payloads meet what the verifiers guarantee (`RunOK`, as in C03), and
+* that never consults the deliberately unpersisted old rounds (`ContRunOK`: no proposal-vote of a round below the
+  player's round — such votes only feed credential-arrival statistics —, round interruptions move forward),
+the run from the restored state `persistView σ` and the live run from `σ` both panic, or both succeed and then, event by
+event, emit the same actions up to late-credential noise (`ActsSim`: a proposal-vote may be answered `ignore` by one and
+relayed by the other, because `proposalSeeker.lowestIncludingLate` is not persisted), and end in states that persist to
+the same image (`SRel`: same player fields, same persisted router for every round ≥ player.Round). -/
 def RestoreBisimStatement : Prop :=
-  ∀ (P : Params) (σ : State) (es : List Player.Event),
-    (∀ kv ∈ σ.root.rounds, kv.2.freshest.kind ≠ 0 → kv.2.freshest.round = kv.1) →
-    ContRunOK P σ es → RunSim (Player.run P σ es) (Player.run P (persistView σ) es)
+  ∀ (P : Params) (good : Nat → Nat → Nat → VoteTracker.Vote → Bool), GoodSpec good →
+    ∀ (σ : State) (es : List Player.Event), Props.C03.Inv P good σ → RunOK P good σ es → ContRunOK P σ es →
+      RunSim (Player.run P (persistView σ) es) (Player.run P σ es)
 
-/-- proved part of `RestoreBisimStatement`: the empty continuation, and the events that never reach the router tree's
-unpersisted parts by construction (checkpoint) — everything else is tied by the sampled three-way comparison
-(real live router, real restored router, PlayerM restored from `persistView`) -/
-theorem restore_bisim_partial (P : Params) (σ : State) :
-    RunSim (Player.run P σ []) (Player.run P (persistView σ) []) := by
-  simp only [Player.run, RunSim]
-  exact ⟨(persistView_idem σ).symm, trivial⟩
+/-- **restore_bisim** (full). -/
+theorem restore_bisim : RestoreBisimStatement := by
+  intro P good hg σ es hI hrun hcont
+  exact run_rel P good hg es (persistView_idem σ) hI hrun hcont
+
+/-- in particular: the same `attest` (votes), `ensure` (commits), `stageDigest`, `assemble` / `repropose`, `rezero`,
+broadcasts and bundle relays — `ActsSim` only ever relates `ignore` with a propose-step `relayVote` -/
+theorem actsSim_strong {as bs : List Action} (h : ActsSim as bs) :
+    as.filter (fun a => !lateNoise a) = bs.filter (fun a => !lateNoise a) := by
+  induction as generalizing bs with
+  | nil => cases bs with
+    | nil => rfl
+    | cons b bs => exact h.elim
+  | cons a as ih =>
+    cases bs with
+    | nil => exact h.elim
+    | cons b bs =>
+      obtain ⟨h1, h2⟩ := h
+      rcases h1 with rfl | ⟨ha, hb⟩
+      · simp only [List.filter]; rw [ih h2]
+      · simp only [List.filter, ha, hb, Bool.not_true]; exact ih h2
 
 /-! ### non-vacuity -/
 
@@ -158,6 +143,49 @@ def exOne : State := match Player.run exP exInit (exEvents.take 1) with
 /-- its disk state fits the wire format, hence round-trips -/
 example : decode (encode (diskOf exOne [.relayVote ⟨5, 0, 0, 9, 51⟩])) = some (diskOf exOne [.relayVote ⟨5, 0, 0, 9, 51⟩]) :=
   decode_encode exOne _ (by decide)
+
+/-- Boolean version of `ContRunOK` for concrete runs -/
+def contOKb (σ : State) : Player.Event → Bool
+  | .pvote _ _ v _ _ => decide (v.round ≥ σ.pl.round)
+  | .roundInterruption r => decide (r > σ.pl.round)
+  | _ => true
+
+def contRunOKb (P : Params) : State → List Player.Event → Bool
+  | _, [] => true
+  | σ, e :: rest =>
+    contOKb σ e && (match Player.handle P σ e with
+      | .ok (σ', _) => contRunOKb P σ' rest
+      | .error _ => true)
+
+theorem contRunOKb_sound (P : Params) : ∀ (es : List Player.Event) (σ : State), contRunOKb P σ es = true → ContRunOK P σ es := by
+  intro es
+  induction es with
+  | nil => intro σ _; trivial
+  | cons e rest ih =>
+    intro σ h
+    simp only [contRunOKb, Bool.and_eq_true] at h
+    refine ⟨?_, ?_⟩
+    · cases e <;> simp_all [contOKb, ContOK]
+    · intro σ' as hh
+      rw [hh] at h
+      exact ih σ' h.2
+
+/-- the hypotheses of `restore_bisim` are met by the example: the mid-run state satisfies the node invariant (it is
+reached from a fresh node by good events) and the continuation meets `RunOK` and `ContRunOK` -/
+example : Props.C03.Inv exP exGood exMid ∧ RunOK exP exGood exMid (exEvents.drop 3) ∧ ContRunOK exP exMid (exEvents.drop 3) := by
+  refine ⟨?_, runOKb_sound exP exGood _ _ (by decide), contRunOKb_sound exP _ _ (by decide)⟩
+  have hg : GoodSpec exGood :=
+    { pos := by intro r p s a h; simp [exGood] at h; omega
+      cons := by intro r p s a b ha hb hs; simp [exGood] at ha hb; omega }
+  have hrun : RunOK exP exGood exInit (exEvents.take 3) := runOKb_sound exP exGood _ _ (by decide)
+  have hok : (match Player.run exP exInit (exEvents.take 3) with | .ok _ => true | .error _ => false) = true := by decide
+  cases hr : Player.run exP exInit (exEvents.take 3) with
+  | error e => rw [hr] at hok; cases hok
+  | ok r =>
+    obtain ⟨σ, ass⟩ := r
+    have := (run_spec exP exGood hg _ (Props.C03.init_inv exP exGood exInit.pl) hrun hr).1
+    have he : exMid = σ := by unfold exMid; rw [hr]
+    rw [he]; exact this
 
 /-- the restored node commits the block on the remaining event exactly as the live one -/
 example : (match Player.run exP (persistView exMid) (exEvents.drop 3), Player.run exP exMid (exEvents.drop 3) with
